@@ -34,6 +34,7 @@ import (
 type FileSpec struct {
 	Rel  string `json:"rel"`
 	Size int64  `json:"size"` // -1: directory
+	Link string `json:"link,omitempty"` // when set: a symbolic link with this target (relative to the link's directory), Size ignored
 }
 
 // MakeTree materialises specs under root with seeded contents.
@@ -52,6 +53,12 @@ func MakeTree(root string, specs []FileSpec, seed int64) error {
 		}
 		if err := os.MkdirAll(filepath.Dir(p), 0755); err != nil {
 			return err
+		}
+		if s.Link != "" {
+			if err := os.Symlink(s.Link, p); err != nil {
+				return err
+			}
+			continue
 		}
 		buf := make([]byte, s.Size)
 		rng.Read(buf)
